@@ -845,3 +845,122 @@ Proof.
     rewrite forallb_forall in Hb. apply Forall_forall. intros c Hc. apply nl_free_b_ok, Hb, Hc.
   - apply nodup_b_ok, H2.
 Qed.
+
+(* ------------------------------------------------------------------ known classes K18a–c *)
+
+(* among the hashed files: some component contains a newline / a backslash / ill-formed UTF-8 or U+FFFD *)
+Definition K18a (root : list str) (files : list file) : Prop :=
+  Exists (fun f => Exists (fun c => In 10 c) (fst f)) (filter (visible root) files).
+Definition K18b (root : list str) (files : list file) : Prop :=
+  Exists (fun f => Exists (fun c => In 92 c) (fst f)) (filter (visible root) files).
+Definition K18c (root : list str) (files : list file) : Prop :=
+  Exists (fun f => Exists (fun c => Exists (fun x => x = 65533 \/ is_scalar x = false) c) (fst f))
+         (filter (visible root) files).
+
+(* what any directory walk guarantees: relative paths are non-empty lists of non-empty names
+   without '/', and no path is yielded twice *)
+Definition wf_walk (root : list str) (files : list file) : Prop :=
+  Forall (fun f => fst f <> [] /\ Forall (fun c => c <> [] /\ ~ In 47 c) (fst f)) (filter (visible root) files) /\
+  NoDup (map fst (filter (visible root) files)).
+
+Theorem not_K18_plain root files :
+  wf_walk root files -> ~ K18a root files -> ~ K18b root files -> ~ K18c root files ->
+  tree_plain root files.
+Proof.
+  unfold wf_walk, K18a, K18b, K18c, tree_plain. intros [W Hn] Ha Hb Hc. split; [|exact Hn].
+  apply Forall_Exists_neg in Ha. apply Forall_Exists_neg in Hb. apply Forall_Exists_neg in Hc.
+  rewrite Forall_forall in W, Ha, Hb, Hc. apply Forall_forall. intros f Hf.
+  specialize (W f Hf). specialize (Ha f Hf). specialize (Hb f Hf). specialize (Hc f Hf).
+  destruct W as [Wne Wc].
+  apply Forall_Exists_neg in Ha. apply Forall_Exists_neg in Hb. apply Forall_Exists_neg in Hc.
+  rewrite Forall_forall in Wc, Ha, Hb, Hc. split; [split; [exact Wne|]|].
+  - apply Forall_forall. intros c Hcin. destruct (Wc c Hcin) as [Cne Cs]. split; [exact Cne|].
+    specialize (Hb c Hcin). specialize (Hc c Hcin). apply Forall_Exists_neg in Hc.
+    rewrite Forall_forall in Hc. apply Forall_forall. intros x Hx. specialize (Hc x Hx).
+    repeat split.
+    + intros ->. exact (Cs Hx).
+    + intros ->. exact (Hb Hx).
+    + intros ->. apply Hc. left. reflexivity.
+    + destruct (is_scalar x) eqn:E; [reflexivity|]. exfalso. apply Hc. right. reflexivity.
+  - apply Forall_forall. intros c Hcin. exact (Ha c Hcin).
+Qed.
+
+Theorem module_hash_iff_known sha sha_text root1 files1 root2 files2 :
+  sha_ok sha ->
+  (forall a b, a = encode_tree (hash_tree_entries sha root1 files1) ->
+               b = encode_tree (hash_tree_entries sha root2 files2) ->
+               sha_text a = sha_text b -> a = b) ->
+  sha_inj_on sha (tree_content root1 files1) (tree_content root2 files2) ->
+  wf_walk root1 files1 -> wf_walk root2 files2 ->
+  ~ K18a root1 files1 -> ~ K18b root1 files1 -> ~ K18c root1 files1 ->
+  ~ K18a root2 files2 -> ~ K18b root2 files2 -> ~ K18c root2 files2 ->
+  (module_hash sha sha_text root1 (NDir files1) = module_hash sha sha_text root2 (NDir files2) <->
+   same_content (tree_content root1 files1) (tree_content root2 files2)).
+Proof.
+  intros Hs Ht Hi W1 W2 A1 B1 C1 A2 B2 C2.
+  apply module_hash_iff_plain; try assumption; apply not_K18_plain; assumption.
+Qed.
+
+Theorem entries_order_known sha root files files' :
+  wf_walk root files -> ~ K18a root files -> ~ K18b root files -> ~ K18c root files ->
+  Permutation files files' ->
+  hash_tree_entries sha root files' = hash_tree_entries sha root files.
+Proof. intros W A B C. apply entries_order_plain. apply not_K18_plain; assumption. Qed.
+
+(* both halves of the pinning statement *)
+Theorem upstream_locked_both ls1 ls2 lock m lm url ref subdir sh lurl lcommit lsubdir :
+  m_source m = SGit url ref subdir sh ->
+  find_locked (m_id m) lock = Some lm -> l_source lm = RGit lurl lcommit lsubdir ->
+  resolve_upstream ls1 (Some lock) m = UpGit lurl lcommit lsubdir /\
+  resolve_upstream ls1 (Some lock) m = resolve_upstream ls2 (Some lock) m.
+Proof.
+  intros Hs Hf Hl. split.
+  - exact (upstream_locked ls1 _ _ _ _ _ _ _ _ _ _ Hs Hf Hl).
+  - exact (upstream_ignores_remote ls1 ls2 _ _ _ _ _ _ _ _ _ _ Hs Hf Hl).
+Qed.
+
+(* decidable versions (the harness mirrors them in Python: props/c18.py k_classes) *)
+Definition comp_known_free_b (c : str) : bool :=
+  negb (mem_char 10 c) && negb (mem_char 92 c) && forallb (fun x => negb (x =? 65533) && is_scalar x) c.
+Definition known_free_b (root : list str) (files : list file) : bool :=
+  forallb (fun f => forallb comp_known_free_b (fst f)) (filter (visible root) files).
+Definition wf_walk_b (root : list str) (files : list file) : bool :=
+  let sh := filter (visible root) files in
+  forallb (fun f => negb (match fst f with [] => true | _ => false end) &&
+                    forallb (fun c => negb (is_empty c) && negb (mem_char 47 c)) (fst f)) sh &&
+  nodup_b (map fst sh).
+
+Lemma mem_char_false c x : mem_char c x = false -> ~ In c x.
+Proof.
+  unfold mem_char. intros H Hin.
+  assert (E : existsb (N.eqb c) x = true) by (apply existsb_exists; exists c; split; [exact Hin|apply N.eqb_refl]).
+  congruence.
+Qed.
+
+Lemma known_free_b_ok root files :
+  known_free_b root files = true -> ~ K18a root files /\ ~ K18b root files /\ ~ K18c root files.
+Proof.
+  unfold known_free_b, K18a, K18b, K18c. intros H. rewrite forallb_forall in H.
+  assert (G : forall f c, In f (filter (visible root) files) -> In c (fst f) -> comp_known_free_b c = true).
+  { intros f c Hf Hc. specialize (H f Hf). rewrite forallb_forall in H. exact (H c Hc). }
+  repeat split; intros E; apply Exists_exists in E as [f [Hf E]]; apply Exists_exists in E as [c [Hc E]];
+    specialize (G f c Hf Hc); unfold comp_known_free_b in G;
+    apply andb_true_iff in G as [G G3]; apply andb_true_iff in G as [G1 G2].
+  - apply negb_true_iff in G1. exact (mem_char_false _ _ G1 E).
+  - apply negb_true_iff in G2. exact (mem_char_false _ _ G2 E).
+  - apply Exists_exists in E as [x [Hx E]]. rewrite forallb_forall in G3. specialize (G3 x Hx).
+    apply andb_true_iff in G3 as [Ga Gb]. destruct E as [-> | E]; [discriminate|congruence].
+Qed.
+
+Lemma wf_walk_b_ok root files : wf_walk_b root files = true -> wf_walk root files.
+Proof.
+  unfold wf_walk_b, wf_walk. intros H. apply andb_true_iff in H as [H1 H2]. split; [|apply nodup_b_ok, H2].
+  rewrite forallb_forall in H1. apply Forall_forall. intros f Hf. specialize (H1 f Hf).
+  cbv beta in H1. destruct f as [p c0]. cbn [fst] in *.
+  apply andb_true_iff in H1 as [Ha Hb]. split.
+  - intros ->. discriminate Ha.
+  - rewrite forallb_forall in Hb. apply Forall_forall. intros c Hc. specialize (Hb c Hc).
+    apply andb_true_iff in Hb as [Hb1 Hb2]. split.
+    + intros ->. discriminate.
+    + apply negb_true_iff in Hb2. apply mem_char_false. exact Hb2.
+Qed.
